@@ -54,18 +54,18 @@ Theorem C05_level_rows :
 Proof. exact storage_physics. Qed.
 Print Assumptions C05_level_rows.
 
-(* Time blocks (assets.py:413-446): block-diagonal level rows for ANY block boundaries that form blocks (checked on the
-   boundaries of every compared case), any n and step lengths.  With start level = end level and no inflow (where the
+(* Time blocks (assets.py:413-446): block-diagonal level rows for ANY list of block boundaries (every list forms blocks:
+   StorageBlocks.blocks_coherent_any), any n and step lengths.  With start level = end level and no inflow (where the
    implementation's rows are right; the other cases are known findings) the physical level of the WHOLE history is within
    [0, size] inside every block and back at the end level at the last step of every block. *)
 Theorem C05_time_blocks :
-  forall p n dt x aa, n = List.length dt -> blocks_coherent aa n = true ->
+  forall p n dt x aa, n = List.length dt ->
   sp_inflow p == 0 -> sp_start p == sp_end p ->
   Forall (row_ok x) (st_block_rows p n dt aa) ->
   forall t, (t < n)%nat ->
     (blk_last aa t = true -> level p n dt x t == sp_end p) /\
     (blk_last aa t = false -> 0 <= level p n dt x t /\ level p n dt x t <= sp_size p).
-Proof. exact block_physics. Qed.
+Proof. exact block_physics_any. Qed.
 Print Assumptions C05_time_blocks.
 
 (* ... and without "start level = end level" the statement is FALSE of the faithful model (known finding of the unchanged tree,
